@@ -242,7 +242,7 @@ class B3:
 
 ERR_PATTERNS = [
     (r"cycle detected", "cycle"),
-    (r"already owned by", "owned"),
+    (r"already owned by|would own artifact", "owned"),
     (r"project lock file .* exists", "locked"),
     (r"checksum missing from cache", "missing-from-cache"),
     (r"no checksum|invalid checksum", "invalid-checksum"),
